@@ -1,4 +1,5 @@
 import Rbp.Model.Output
+import Rbp.Proofs.Faults
 /-!
 # C10 — exit status 0 means complete, final-named output; any failure leaves none
 (logical core of one output file: BufWriter with capacity rule, byte budget as the write-fault parameter, explicit flush,
@@ -27,6 +28,30 @@ theorem old_order_refuted :
     (let s := exec (init 10 1000) ((oldProg [bytes 3]).take 2); s.renamed = true ∧ s.w.disk ≠ bytes 3) ∧
     (let s := exec (init 10 2) (oldProg [bytes 3]); s.ok = true ∧ s.renamed = true ∧ s.w.disk ≠ bytes 3) :=
   ⟨old_partial_instant, old_truncated_exit0⟩
+
+/-- **input faults, whole run.**  If the heights before `k` can be served and height `k` of the range cannot — its blk file
+    is missing, or the block cannot be read at the recorded offset (file emptied, truncated inside the block, offset past the
+    end), or `--verify` rejects it — the process exits 1, reports exactly height `k`, has delivered exactly `start..k-1`, and
+    no final-named output file exists: `on_complete`, the only place where files are renamed, is never reached. -/
+theorem input_fault_no_final (o : Run.Opts) (key : Option W.Bytes) (kvs : List (W.Bytes × W.Bytes)) (files : List Run.BlkFile)
+    (coin : Run.Coin) (ld : Run.Loaded) (hcoin : Run.coinOf o.coin = some coin) (hld : Run.loadIndex o kvs = .ok ld)
+    (hfiles : (files.filterMap fun f => (Run.parseBlkIndex f.name).map fun n => (n, f)) ≠ [])
+    (hkey : key ≠ some []) (k : Nat) (m : String) (hk1 : o.start ≤ k) (hk2 : k ≤ ld.maxH)
+    (hf : Run.FailsAt coin o key (files.filterMap fun f => (Run.parseBlkIndex f.name).map fun n => (n, f)) ld.trimmed k m)
+    (hs : ∀ j, o.start ≤ j → j < k →
+      Run.Servable coin o key (files.filterMap fun f => (Run.parseBlkIndex f.name).map fun n => (n, f)) ld.trimmed j) :
+    (Run.run o key kvs files).exit = 1 ∧ (Run.run o key kvs files).errHeight = some k ∧ (Run.run o key kvs files).msg = m ∧
+    (Run.run o key kvs files).files = [] ∧ (Run.run o key kvs files).delivered = List.range' o.start (k - o.start) :=
+  Run.run_fails_at o key kvs files coin ld hcoin hld hfiles hkey k m hk1 hk2 hf hs
+
+/-- **truncation at any byte is such a fault.**  If from `offset-4` on the file holds only a strict prefix of
+    `LE32 size ‖ encoding of a well-formed block` — cut at any byte of the length prefix or of the block, or nothing at all —
+    the read fails; it can never produce some other, shorter block (the readers are monotone and consume an encoding exactly) -/
+theorem truncated_block_is_fault (coin : Run.Coin) (size : Nat) (hs : size < 256 ^ 4) (b : W.Block) (hb : b.ok coin.auxpow)
+    (pre suf : W.Bytes) (he : W.toLE 4 size ++ b.enc = pre ++ suf) (hsuf : suf ≠ []) :
+    Run.parseAt coin pre = .err "Unable to read block: failed to fill whole buffer" ∧
+    Run.parseAt coin [] = .err "Unable to read block: failed to fill whole buffer" :=
+  ⟨Run.parseAt_truncated coin size hs b hb pre suf he hsuf, Run.parseAt_nil coin⟩
 
 /-- non-vacuity: a run whose budget is exhausted by the final flush -/
 example : (exec (init 10 4) (fixedProg [bytes 3, bytes 3])).ok = false ∧ (exec (init 10 4) (fixedProg [bytes 3, bytes 3])).renamed = false := by decide
